@@ -1,0 +1,46 @@
+//go:build verif
+
+package asp
+
+import (
+	"fmt"
+	"sort"
+
+	"github.com/thought-machine/please/src/core"
+)
+
+// EvalForVerifC38 parses data as the BUILD file of pkg, interprets it and returns the package scope's
+// variables as "name=type:value" lines (sorted; CONFIG and functions' addresses left out).  Targets end
+// up in pkg / the state's graph as usual.
+func EvalForVerifC38(p *Parser, pkg *core.Package, data []byte, filename string) (globals []string, parsed bool, err error) {
+	defer func() {
+		if r := recover(); r != nil {
+			err = fmt.Errorf("panic: %v", r)
+		}
+	}()
+	stmts, err := p.ParseData(data, filename)
+	if err != nil {
+		return nil, false, err
+	}
+	s, err := p.interpreter.interpretAll(pkg, nil, nil, core.ParseModeNormal, stmts)
+	if err != nil {
+		return nil, true, err
+	}
+	for name, v := range s.locals {
+		if name == "CONFIG" {
+			continue
+		}
+		if f, ok := v.(*pyFunc); ok {
+			idx := make([]string, 0, len(f.argIndices))
+			for k, i := range f.argIndices {
+				idx = append(idx, fmt.Sprintf("%s:%d", k, i))
+			}
+			sort.Strings(idx)
+			globals = append(globals, fmt.Sprintf("%s=function:%s(%v)types=%v names=%v ret=%s", name, f.name, f.args, f.types, idx, f.returnType))
+			continue
+		}
+		globals = append(globals, fmt.Sprintf("%s=%s:%s", name, v.Type(), v.String()))
+	}
+	sort.Strings(globals)
+	return globals, true, nil
+}
